@@ -20,10 +20,12 @@
                      pair, none for anything that is not a pair of vertices);
     * `ci_minimum`   no separating set of any size is smaller than the listed one;
     * `ci_total`     the function does return (for `_len_lex` always; for the topological policy when every vertex
-                     occurs in the order).
+                     occurs in the order — which `ci_total_admg` discharges for every ADMG).
 -/
 import Y0.Lemmas.SepCI
 import Y0.Props.C04
+import Y0.Lemmas.LatentKahn
+import Y0.Lemmas.LatentTopo
 
 namespace Y0
 open List
@@ -251,6 +253,21 @@ theorem ci_total_lenLex (G : MG Nat) (hG : G.WF) (maxC : Option Nat) (ra : Bool)
   obtain ⟨R, hR⟩ := ci_total (nodup_vertexList G) (goodTest_dSeparated G hG) .lenLex maxC ra
     (fun _ h => by cases h)
   exact ⟨R, by simpa [conditionalIndependencies, bind, Except.bind, pure, Except.pure] using hR⟩
+
+/-- **Total.**  On every ADMG `from_edges` can build, with either built-in policy, any limit, `return_all` on or off,
+`get_conditional_independencies` returns (it never raises).  Uses the facts about the shared model of networkx's
+topological sort proved by the `latent` family: it succeeds on acyclic graphs and lists every node. -/
+theorem ci_total_admg (G : MG Nat) (hG : G.WF) (hA : G.Acyclic) (topological : Bool) (maxC : Option Nat)
+    (ra : Bool) : ∃ R, G.conditionalIndependencies topological maxC ra = .ok R := by
+  cases topological with
+  | false => exact ci_total_lenLex G hG maxC ra
+  | true =>
+    obtain ⟨o, ho⟩ := topologicalSort_total G hG hA
+    obtain ⟨R, hR⟩ := ci_total (nodup_vertexList G) (goodTest_dSeparated G hG) (.topological o) maxC ra
+      (fun order h v hv => by
+        cases h
+        exact topologicalSort_complete G o ho v ((mem_vertexList G v).1 hv))
+    exact ⟨R, by simpa [conditionalIndependencies, ho, bind, Except.bind, pure, Except.pure] using hR⟩
 
 end MG
 
